@@ -36,3 +36,7 @@ EQUIVALENTS += [
     e("eq-stencil-reorder", ["C04"], OP, "derivative_array[0] = 2 * array[0] - 5 * array[1] + 4 * array[2] - array[3]", "derivative_array[0] = 4 * array[2] - array[3] + 2 * array[0] - 5 * array[1]"),
     e("eq-curl-temp", ["C05"], F, "return curl_x << curl_y << curl_z", "first_two = curl_x << curl_y\n        return first_two << curl_z"),
 ]
+
+EQUIVALENTS += [
+    e("eq-sel-astype-copies", ["C13", "C07", "C14"], M, "sub_p_1 = subreg.pmin.copy().astype(", "sub_p_1 = subreg.pmin.astype("),
+]
